@@ -1,6 +1,8 @@
 package vstub
 
 import (
+	"os"
+	"path/filepath"
 	"strings"
 	"sync"
 )
@@ -54,15 +56,49 @@ func DiskPaths() []string {
 	return out
 }
 
-// DiskHas reports whether a store exists at path with at least one key.
+// DiskHas reports whether a store exists at path with at least one key
+// (natively: whether the directory exists and is not empty).
 func DiskHas(path string) bool {
+	entries, err := os.ReadDir(path)
+	return err == nil && len(entries) > 0
+}
+
+// diskHasModel is DiskHas under the interpreter (substituted by name).
+func diskHasModel(path string) bool {
 	diskMu.Lock()
 	defer diskMu.Unlock()
 	c, ok := disk[path]
 	return ok && len(c.M) > 0
 }
 
-// Dir returns the directory an instance should use: under the interpreter the
-// given path (the disk model keeps one store per path); natively the in-memory
-// marker of the cache manager, so that replays never touch the real file system.
-func Dir(path string) string { return ":memory:" }
+// Dir returns the directory an instance should use for the logical path p:
+// under the interpreter p itself (the disk model keeps one store per path);
+// natively a private temporary directory standing for p, so that replays use
+// the real leveldb on a real file system without touching anything else.
+func Dir(p string) string {
+	nativeMu.Lock()
+	defer nativeMu.Unlock()
+	if nativeBase == "" {
+		d, err := os.MkdirTemp("", "verif-disk")
+		if err != nil {
+			panic(err)
+		}
+		nativeBase = d
+	}
+	return filepath.Join(nativeBase, p)
+}
+
+// Cleanup removes the native temporary directories (called by the replay test).
+func Cleanup() {
+	nativeMu.Lock()
+	defer nativeMu.Unlock()
+	if nativeBase != "" {
+		os.RemoveAll(nativeBase)
+		nativeBase = ""
+	}
+}
+
+var (
+	nativeMu   sync.Mutex
+	nativeBase string
+)
